@@ -212,4 +212,6 @@ func runC02(ctx *Ctx) {
 	}
 	runC02More(ctx)
 	c02NonNFC(ctx)
+	c02Deep(ctx)
+	c02Pinned(ctx)
 }
